@@ -14,8 +14,8 @@
    The resolver, flatten/lowering and the rest of the back end are tied by the correspondence and
    end-to-end streams of vplib/props/c04*.py, not by proof. *)
 From Coq Require Import List ZArith QArith NArith Bool Permutation.
-From PV Require Import Lib.ListX Model.Rel Model.Window Model.Frame Model.WindowFns Model.WinReorder Model.SplitBase
-  Gen.GenSplit Gen.GenWindow Proofs.RelFacts Proofs.FrameProofs Proofs.WindowProofs Proofs.WinReorderProofs.
+From PV Require Import Lib.ListX Model.Rel Model.Window Model.Frame Model.WindowFns Model.WinReorder Model.WinAtomic Model.SplitBase
+  Gen.GenSplit Gen.GenWindow Proofs.RelFacts Proofs.FrameProofs Proofs.WindowProofs Proofs.WinReorderProofs Proofs.WinAtomicProofs.
 Import ListNotations.
 Local Open Scope Z_scope.
 
@@ -370,6 +370,50 @@ Proof.
 Qed.
 Print Assumptions c04_reorder_keeps_transforms_and_definitions.
 
+(* ---------------------------------------------------------------- (c'') split_off_back: the complexity half, as a function *)
+(* Model/WinAtomic.v `walk` mirrors what split_off_back does with column complexities while it assembles one SELECT from
+   the back of the pipeline (get_requirements, allow_up_to, can_materialize); its stopping point is compared with the
+   implementation's on every call (hook verif:split_off_back).  For EVERY pipeline and all tables: when the walk has met
+   a transform t and later keeps a column definition x (x stands in front of t in the pipeline, both end up in the same
+   SELECT), then x is no more complex than anything t requires of x's column; if t is itself a kept definition that
+   mentions x's column (so x is inlined into t), x is no more complex than what t's own users allowed t to be; and
+   is_split_required said no with what follows x.  Read with x Windowed: a window function stays in a SELECT only if
+   every transform of that SELECT that uses it -- directly or through inlined plain expressions -- allows Windowed *)
+Theorem c04_kept_definition_sound : forall tb st0 la t lb x sa sb sc sx,
+  walk tb st0 la = Some sa -> wstep tb sa t = Some sb -> walk tb sb lb = Some sc -> wstep tb sc x = Some sx ->
+  is_compute_kind (t_kind x) = true ->
+  (forall c, In (t_id x, c) (reqs_of tb sa t) -> cx_leb tb (t_cx x) c = true) /\
+  (is_compute_kind (t_kind t) = true -> In (t_id x) (map fst (reqs_of tb sa t)) ->
+   cx_leb tb (t_cx x) (allowed tb (ws_req sa ++ reqs_of tb sa t) (t_id t)) = true) /\
+  rt_split tb (t_kind x) (ws_fol sc) = false.
+Proof. exact kept_definition_sound. Qed.
+Print Assumptions c04_kept_definition_sound.
+
+(* ... and which requirements of the source's tables allow Windowed at all (arm of get_requirements, does SQL admit a
+   window function there): the argument of a PLAIN expression, ORDER BY keys (Sort, the sort of a Take), DISTINCT ON keys and
+   the output -- not: arguments of aggregate / window / CASE definitions, window partition / order keys, GROUP BY keys,
+   WHERE, LIMIT expressions, JOIN conditions.  The one arm that allows more than SQL admits, a Filter with no Aggregate
+   behind it (it may become HAVING), is closed by is_split_required: c04_window_before_filter *)
+Theorem c04_gen_requirements_admit_windows :
+  forallb (fun p : cx * bool => implb (cx_leb code_req_tables CWindowed (fst p)) (snd p))
+    [(rt_compute_allows code_req_tables CPlain, sql_admits_window UPlainExpr);
+     (rt_compute_allows code_req_tables CNonGroup, false); (rt_compute_allows code_req_tables CWindowed, sql_admits_window UWindowArg);
+     (rt_compute_allows code_req_tables CAggregation, sql_admits_window UAggArg);
+     (rt_default code_req_tables, sql_admits_window UGroupKey); (rt_default code_req_tables, sql_admits_window UJoinOn);
+     (rt_filter_allows code_req_tables true, sql_admits_window UWhere);
+     (rt_sort_allows code_req_tables, sql_admits_window UOrderBy); (rt_take_sort_allows code_req_tables, sql_admits_window UOrderBy);
+     (rt_distinct_on_allows code_req_tables, true); (rt_highest code_req_tables, sql_admits_window UProjection)]
+  && cx_leb code_req_tables CWindowed (rt_compute_allows code_req_tables CPlain)
+  && cx_leb code_req_tables CWindowed (rt_sort_allows code_req_tables) = true.
+Proof. vm_compute. reflexivity. Qed.
+Print Assumptions c04_gen_requirements_admit_windows.
+
+(* can_materialize of the source is the comparison the walk uses: complexity <= what is required, in declaration order *)
+Theorem c04_gen_can_materialize_is_le :
+  forallb (fun a => forallb (fun b => Bool.eqb (can_materialize a b) (cx_leb code_req_tables a b)) all_cx) all_cx = true.
+Proof. vm_compute. reflexivity. Qed.
+Print Assumptions c04_gen_can_materialize_is_le.
+
 (* ---------------------------------------------------------------- (d) rows are kept *)
 Theorem c04_window_preserves_rows : forall fr keys cols l,
   (length (Rel.apply (TWinF fr keys cols) l) = length l /\
@@ -476,3 +520,9 @@ Example c04_ex_range_two_keys :
   sql_accepts (to_sframe (KRange, Some (-1), Some 0)) 0 = false /\
   prql_segmentx (KRange, Some (-1), Some 0) [(true, w_key)] w_part 1 = [1; 2]%nat.
 Proof. exact range_two_keys_witness. Qed.
+(* the walk, on `derive {w = sum b} | filter w > 1 | select`: behind the Select and the Filter the windowed definition ends
+   the SELECT (2 transforms kept); without the filter all three stay *)
+Example c04_ex_walk :
+  kept code_req_tables (wstate0 code_req_tables [3%N]) (map titem_of [(9, true, 0, 0, [], [], []); (2, true, 0, 0, [3], [], []); (4, true, 2, 3, [1], [], [])]%N) = 2%nat /\
+  kept code_req_tables (wstate0 code_req_tables [3%N]) (map titem_of [(9, true, 0, 0, [], [], []); (4, true, 2, 3, [1], [], [])]%N) = 2%nat.
+Proof. split; vm_compute; reflexivity. Qed.
